@@ -21,9 +21,14 @@ LAWS = ['NoConnectionWhenRejected', 'AttemptsAreOrderedPrefix', 'OnlyWantedFamil
 V4, V6 = '192.0.2.10', '2001:db8::10'
 
 
+EXTRA_HOSTS = ('::2001:db8:1:2:3:4:443', '2001:db8:1:2:3:4:5::', 'build_agent.ci.internal', 'xn--bcher-kva.example')
+
+
 def build(tier, rnd):
     hosts = [('host1', 'name'), ('a.b.example', 'name'), ('1.2.3.4', 'v4'), ('::1', 'v6'), ('fe80::1', 'v6'), ('2001:db8:0:0:0:0:0:1', 'v6'),
-             ('::ffff:192.0.2.1', 'v6'), ('64:ff9b::198.51.100.7', 'v6'), ('fe80::1%eth0', 'v6')]         # embedded IPv4 part, zone id
+             ('::ffff:192.0.2.1', 'v6'), ('64:ff9b::198.51.100.7', 'v6'), ('fe80::1%eth0', 'v6'),         # embedded IPv4 part, zone id
+             # seven written groups next to a '::' that stands for one (legal, if not canonical); names with characters beyond letters, digits, '.', '-'
+             ('::2001:db8:1:2:3:4:443', 'v6'), ('2001:db8:1:2:3:4:5::', 'v6'), ('build_agent.ci.internal', 'name'), ('xn--bcher-kva.example', 'name')]
     ports = [None, 1, 22, 2222, 65535, 0, 65536, 70000]
     popts = [(0, None), (1, '1'), (22, '22'), (2222, '2222'), (65535, '65535'), (-5, '0'), (65536, '65536')]
     fams = ['', '4', '6', '46', '64']
@@ -49,6 +54,8 @@ def build(tier, rnd):
                     for fam in fams:
                         if tier == 'quick' and fam in ('4', '6') and popt not in (0,):
                             continue
+                        if tier == 'quick' and host in EXTRA_HOSTS and (fam not in ('', '64') or p not in (None, 22, 65535, 70000)):
+                            continue        # (the further spellings vary the host part: fewer port / family combinations in the quick tier)
                         if kind == 'name':
                             ans_names = list(answers)
                             if tier == 'quick':
